@@ -42,6 +42,7 @@ type DBStep struct {
 	Ver      uint32 `json:"ver,omitempty"`
 	Val      int    `json:"val,omitempty"`       // value token
 	SaveFail bool   `json:"save_fail,omitempty"` // the file system refuses the save
+	Overlap  bool   `json:"overlap,omitempty"`   // an authorized read of the same secret runs in the middle of this call (C01)
 	Audit    string `json:"audit,omitempty"`     // "" | "write" | "sync": what the audit sink does with the next record
 }
 
@@ -574,6 +575,33 @@ func (e *dbEnv) exec(callers []DBCaller, st DBStep) stepObs {
 	kek0 := e.kek.count()
 	name := string(st.Name)
 	var err error
+	if st.Overlap && !st.SaveFail && st.Audit == "" {
+		// in the middle of this call (when its first audit record reaches the sink) a fully authorized caller
+		// reads the same secret on another goroutine; this call's own access decision must not notice
+		done := make(chan struct{})
+		e.sink.mu.Lock()
+		e.sink.hook = func() {
+			go func() {
+				e.d.Get(e.super, name)
+				e.d.Info(e.super, name)
+				close(done)
+			}()
+			select {
+			case <-done:
+			case <-time.After(30 * time.Millisecond):
+			}
+		}
+		e.sink.mu.Unlock()
+		defer func() {
+			e.sink.mu.Lock()
+			fired := e.sink.hook == nil
+			e.sink.hook = nil
+			e.sink.mu.Unlock()
+			if fired {
+				<-done
+			}
+		}()
+	}
 	func() {
 		defer func() {
 			if p := recover(); p != nil {
